@@ -858,6 +858,13 @@ impl<T: Transport + 'static> SyncEngine<T> {
             let stats = Arc::clone(&stats);
             let pb = pb.clone();
             let permit = semaphore.clone().acquire_owned().await.unwrap();
+            // A directory that takes the place of a symbolic link (the source entry used to be a
+            // link) has to be there before the tasks of its entries start: with several workers
+            // they were written through the link that was still in place, out of the destination
+            let replaces_link = !dry_run
+                && task.source.as_ref().is_some_and(|f| f.is_dir)
+                && std::fs::symlink_metadata(&task.dest_path)
+                    .is_ok_and(|m| m.file_type().is_symlink());
             let rate_limiter = rate_limiter.clone();
             let _resume_state = Arc::clone(&resume_state);
             let _dest_path_for_checkpoint = destination.to_path_buf();
@@ -1368,7 +1375,19 @@ impl<T: Transport + 'static> SyncEngine<T> {
                 result
             });
 
-            handles.push(handle);
+            if replaces_link {
+                let done = handle.await;
+                handles.push(tokio::spawn(async move {
+                    done.unwrap_or_else(|e| {
+                        Err(crate::error::SyncError::Io(std::io::Error::other(format!(
+                            "Task panicked: {}",
+                            e
+                        ))))
+                    })
+                }));
+            } else {
+                handles.push(handle);
+            }
         }
 
         // Collect all results
